@@ -17,7 +17,7 @@ use crate::plan::Plan;
 use ruint::Uint;
 use std::str::FromStr;
 
-pub const NOPS: u64 = 92;
+pub const NOPS: u64 = 93;
 /// operations that are expensive on very wide types (skipped above 1024 bits)
 fn heavy(op: u64) -> bool {
     matches!(op, 40..=52)
@@ -242,6 +242,19 @@ fn apply<const B: usize, const L: usize>(op: u64, a: Uint<B, L>, b: Uint<B, L>, 
         88 => ("approx_pow2", o(Uint::<B, L>::approx_pow2((k % (B as u64 + 8)) as f64 + 0.3))),
         89 => ("try_from(u128)", Uint::<B, L>::try_from(u128::from(k) * u128::from(k)).ok().into_iter().collect()),
         90 => ("try_from(f64)", Uint::<B, L>::try_from((k % 100000) as f64 + 0.5).ok().into_iter().collect()),
+        91 => ("from_be_slice / from_le_slice (raw bytes)", {
+            // possibly out-of-range bytes: the panicking constructors must panic or return a canonical value
+            let mut bytes = (!a).to_be_bytes_vec();
+            if let Some(first) = bytes.first_mut() {
+                *first |= k as u8;
+            }
+            let le: Vec<u8> = bytes.iter().rev().copied().collect();
+            let mut v = vec![];
+            v.extend(Uint::<B, L>::try_from_le_slice(&le));
+            v.push(Uint::from_be_slice(&bytes));
+            v.push(Uint::from_le_slice(&le));
+            v
+        }),
         // constructors documented to reject out-of-range limbs: whatever they return must be canonical
         // (a panic is the documented rejection and yields no value)
         _ => ("from_limbs(raw top limb)", {
